@@ -29,7 +29,7 @@ def m_isinstance(it, v, c):
     if isinstance(c, PClass):
         return isinstance(v, PObj) and c in v.cls.mro()
     if isinstance(c, type):
-        if type(v).__name__ == "ISOText":  # isoformat() of a symbolic datetime is text
+        if type(v).__name__ in ("ISOText", "IPText"):  # isoformat() of a symbolic datetime / str() of a symbolic address is text
             return c in (str, object)
         if isinstance(v, PObj):
             return v.cls.is_subclass_of(c)
